@@ -9,6 +9,7 @@ inductive Kind where
   | atomic                  -- `&x.f` passed to a sync/atomic function
   | call (m : String)       -- a method called on the field's value (X.f.M(...)) or a channel operation on it; the field itself is read
   | addr                    -- the field's address escapes
+  | alias                   -- a map or slice held in the field is copied into a local that outlives the statement (and the field keeps it)
   deriving DecidableEq, Repr
 
 structure Site where
@@ -36,7 +37,7 @@ inductive Verdict where
   deriving DecidableEq, Repr
 
 def Kind.isRead : Kind → Bool
-  | .read | .call _ => true
+  | .read | .call _ | .alias => true
   | _ => false
 
 def guardOK (m : String) (s : Site) : Bool :=
@@ -82,7 +83,7 @@ structure World where
 def InstanceOf (W : World) (tr : Trace) (i : Nat) (e : Ev) (x : Nat) (w a : Bool) (s : Site) : Prop :=
   (s.obj, s.field) = W.fieldOf x ∧ e.init = s.ctor ∧
   (match s.kind with
-   | .read | .call _ => w = false ∧ a = false
+   | .read | .call _ | .alias => w = false ∧ a = false
    | .write => w = true ∧ a = false
    | .atomic => a = true
    | .addr => False) ∧
